@@ -541,6 +541,13 @@ func (l *Lexer) readHTML() string {
 			out.Truncate(out.Len() - 1)
 		}
 
+		// both braces are escaped, the second
+		// one cannot open a new block
+		if escapedBraces {
+			out.WriteByte(l.char)
+			l.readChar()
+		}
+
 		out.WriteByte(l.char)
 		l.readChar()
 	}
